@@ -119,6 +119,47 @@ theorem approval_slots_injective {s p prec i j : Nat} (hprec : 0 < prec) (hi : 1
 theorem approval_collision_without_precedence :
     approvalBlock 2 100 0 1 = approvalBlock 2 100 0 2 := by decide
 
+/-! ## Arithmetic width
+
+The Go code converts the `uint8` member index to `uint64` *before* multiplying:
+`uint64(memberIndex-1) * step`.  The model computes in `Nat`; these theorems make the width part of
+the model: for every `uint8` index the `uint64` product of the code equals the `Nat` product, while
+the same product taken in `uint8` (converting after multiplying) would wrap. -/
+
+/-- `uint64(idx-1) * step` as the hardware computes it -/
+def stepOffsetU64 (idx step : Nat) : Nat := ((idx - 1) % 2 ^ 64 * (step % 2 ^ 64)) % 2 ^ 64
+
+/-- the same product taken in `uint8` (`group.MemberIndex`) arithmetic -/
+def stepOffsetU8 (idx step : Nat) : Nat := ((idx - 1) % 256 * (step % 256)) % 256
+
+/-- no wrap in `uint64` for any `uint8` member index and any step below `2^56` -/
+theorem stepOffset_no_uint64_wrap {idx step : Nat} (hi : idx ≤ 255) (hs : step < 2 ^ 56) :
+    stepOffsetU64 idx step = stepOffset idx step := by
+  unfold stepOffsetU64 stepOffset
+  have h1 : (idx - 1) % 2 ^ 64 = idx - 1 := Nat.mod_eq_of_lt (by omega)
+  have h2 : step % 2 ^ 64 = step := Nat.mod_eq_of_lt (by omega)
+  rw [h1, h2]
+  apply Nat.mod_eq_of_lt
+  calc (idx - 1) * step ≤ 254 * step := Nat.mul_le_mul_right _ (by omega)
+    _ < 2 ^ 64 := by omega
+
+/-- …in particular for the three step constants extracted from the source -/
+theorem tbtc_delays_no_uint64_wrap {idx : Nat} (hi : idx ≤ 255) :
+    stepOffsetU64 idx Gen.C47.tbtcDkgSubmissionStep = stepOffset idx Gen.C47.tbtcDkgSubmissionStep ∧
+    stepOffsetU64 idx Gen.C47.tbtcDkgApprovalStep = stepOffset idx Gen.C47.tbtcDkgApprovalStep ∧
+    stepOffsetU64 idx Gen.C47.tbtcInactivityStep = stepOffset idx Gen.C47.tbtcInactivityStep :=
+  ⟨stepOffset_no_uint64_wrap hi (by decide), stepOffset_no_uint64_wrap hi (by decide),
+   stepOffset_no_uint64_wrap hi (by decide)⟩
+
+/-- the `uint8` product WOULD wrap: member 19's approval delay (18·15 = 270) becomes 14, earlier
+    than member 2's; member 87's submission delay (86·3 = 258) becomes 2. -/
+theorem uint8_product_would_wrap :
+    stepOffsetU8 19 Gen.C47.tbtcDkgApprovalStep = 14 ∧
+    stepOffset 19 Gen.C47.tbtcDkgApprovalStep = 270 ∧
+    stepOffsetU8 19 Gen.C47.tbtcDkgApprovalStep < stepOffsetU8 2 Gen.C47.tbtcDkgApprovalStep ∧
+    stepOffsetU8 87 Gen.C47.tbtcDkgSubmissionStep = 2 ∧
+    stepOffset 87 Gen.C47.tbtcDkgSubmissionStep = 258 := by decide
+
 /-! ## Early exit -/
 
 /-- `submitRelayEntry`, for **every** history: a submission happens only when the member's slot
@@ -255,7 +296,7 @@ theorem mem_members {n i : Nat} : i ∈ members n ↔ 1 ≤ i ∧ i ≤ n := by
     sizes, steps, entries, start blocks, competing events, tie orders and chain failures. -/
 theorem relay_holds_model (n step entry start : Nat) (ev : Option Nat) (tie : List Kind)
     (sf : Bool) (ip : Option Bool) (hs : 0 < step) :
-    holds (relayRule n step start ev tie) (relayGroup n step entry start ev tie sf ip) = true := by
+    holds (relayRule n step entry start ev tie) (relayGroup n step entry start ev tie sf ip) = true := by
   unfold holds
   rw [Bool.and_eq_true]
   constructor
@@ -319,7 +360,7 @@ theorem holds_all_skipped (r : Rule) (ms : List Mem) (h : ∀ m ∈ ms, m.await 
 
 theorem bdkg_holds_model (n honest step start nsigs : Nat) (reg : Option Bool) (ev : Option Nat)
     (tie : List Kind) (hs : 0 < step) :
-    holds (bdkgRule start reg ev tie) (bdkgGroup n honest step start nsigs reg ev tie) = true := by
+    holds (bdkgRule step start reg ev tie) (bdkgGroup n honest step start nsigs reg ev tie) = true := by
   by_cases hsig : nsigs < honest + (n - honest) / 2
   · apply holds_all_skipped
     intro m hm
@@ -364,7 +405,7 @@ theorem bdkg_holds_model (n honest step start nsigs : Nat) (reg : Option Bool) (
 
 theorem tbtc_tail_group_holds (stepBlocks cur : Nat) (w : Wait) (n : Nat) (hs : 0 < stepBlocks)
     (ms : List Mem) (hms : ms = (members n).map (tbtcTail stepBlocks cur w)) :
-    holds (tbtcRule cur false w) ms = true := by
+    holds (tbtcRule stepBlocks cur false w) ms = true := by
   subst hms
   unfold holds
   rw [Bool.and_eq_true]
@@ -401,7 +442,7 @@ theorem tdkg_holds_model (n quorum cur nsigs : Nat) (state : Option Nat) (w : Wa
     | some st =>
       by_cases hst : st = Gen.C47.awaitingResultState
       · subst hst
-        have : tdkgRule cur (some Gen.C47.awaitingResultState) w = tbtcRule cur false w := by
+        have : tdkgRule cur (some Gen.C47.awaitingResultState) w = tbtcRule Gen.C47.tbtcDkgSubmissionStep cur false w := by
           simp [tdkgRule]
         rw [this]
         apply tbtc_tail_group_holds Gen.C47.tbtcDkgSubmissionStep cur w n tbtc_steps_pos.1
@@ -426,7 +467,7 @@ theorem tinact_holds_model (n honest cur nsigs nonce cn : Nat) (w : Wait) :
       intro m hm
       obtain ⟨idx, -, rfl⟩ := List.mem_map.1 hm
       simp [tinactMember, hsig, hn]
-    · have : tinactRule cur nonce cn w = tbtcRule cur false w := by
+    · have : tinactRule cur nonce cn w = tbtcRule Gen.C47.tbtcInactivityStep cur false w := by
         simp [tinactRule, hn]
       rw [this]
       apply tbtc_tail_group_holds Gen.C47.tbtcInactivityStep cur w n tbtc_steps_pos.2.1
@@ -467,14 +508,14 @@ theorem appr_awaits_nodup (submitter p prec : Nat) (seats : List Nat) (hprec : 0
 /-- monitor soundness for the approval scheduling: every run of the model is accepted. -/
 theorem appr_holds_model (submitter sub chal prec : Nat) (seats : List Nat) (tie : List Kind)
     (ev : Option Nat) (hprec : 0 < prec) (hs : ∀ s ∈ seats, 1 ≤ s) (hnd : seats.Nodup) :
-    holdsAppr (precedenceStart sub chal) prec seats.length tie ev
+    holdsAppr submitter (precedenceStart sub chal) prec seats tie ev
       (apprAwaits submitter (precedenceStart sub chal) prec seats)
       (apprApprovals tie ev (apprAwaits submitter (precedenceStart sub chal) prec seats)) = true := by
   have hnodup := appr_awaits_nodup submitter (precedenceStart sub chal) prec seats hprec hs hnd
   have hperm := sortNat_perm (seats.map (approvalBlock submitter (precedenceStart sub chal) prec))
   unfold holdsAppr
   simp only [Bool.and_eq_true, decide_eq_true_eq, List.all_eq_true, Bool.or_eq_true]
-  refine ⟨⟨⟨⟨hnodup, ?_⟩, ?_⟩, ?_⟩, ?_⟩
+  refine ⟨⟨⟨⟨⟨rfl, hnodup⟩, ?_⟩, ?_⟩, ?_⟩, ?_⟩
   · unfold apprAwaits; rw [hperm.length_eq, List.length_map]
   · intro w hw
     unfold apprAwaits at hw
@@ -491,25 +532,25 @@ theorem appr_holds_model (submitter sub chal prec : Nat) (seats : List Nat) (tie
     simpa using h2
 
 example : apprAwaits 2 100 20 [3, 1, 2] = [100, 120, 150] := by decide
-example : holdsAppr 100 20 3 [.slot, .event] (some 120) [100, 120, 150] [100, 120] = true := by decide
+example : holdsAppr 2 100 20 [3, 1, 2] [.slot, .event] (some 120) [100, 120, 150] [100, 120] = true := by decide
 /-- rejected: approval after someone else's approval was observed; two seats on one block -/
-example : holdsAppr 100 20 3 [.slot, .event] (some 110) [100, 120, 150] [100, 120] = false := by decide
-example : holdsAppr 100 20 2 [.slot, .event] none [100, 100] [100] = false := by decide
+example : holdsAppr 2 100 20 [3, 1, 2] [.slot, .event] (some 110) [100, 120, 150] [100, 120] = false := by decide
+example : holdsAppr 2 100 20 [3, 1] [.slot, .event] none [100, 100] [100] = false := by decide
 
 /-! ## Non-vacuity / monitor examples -/
 
 example : (relayGroup 3 3 9 100 none [.slot, .event, .timeout] false (some true)).map (·.await)
     = [some 100, some 103, some 106] := by decide
-example : holds (relayRule 3 3 100 (some 103) [.event, .slot, .timeout])
+example : holds (relayRule 3 3 9 100 (some 103) [.event, .slot, .timeout])
     (relayGroup 3 3 9 100 (some 103) [.event, .slot, .timeout] false (some true)) = true := by decide
 /-- the monitor rejects the unchanged tree's behaviour (member 3 waits for the timeout block)… -/
-example : holds (relayRule 3 3 100 none [.slot, .event, .timeout])
+example : holds (relayRule 3 3 9 100 none [.slot, .event, .timeout])
     [⟨1, some 103, [103], .timeout⟩, ⟨2, some 106, [106], .timeout⟩, ⟨3, some 109, [109], .timeout⟩]
     = false := by decide
 /-- …a shared slot, and a submission after the competing event was observed. -/
-example : holds (relayRule 2 3 100 none [.slot, .event, .timeout])
+example : holds (relayRule 2 3 0 100 none [.slot, .event, .timeout])
     [⟨1, some 100, [100], .timeout⟩, ⟨2, some 100, [100], .timeout⟩] = false := by decide
-example : holds (relayRule 2 3 100 (some 101) [.slot, .event, .timeout])
+example : holds (relayRule 2 3 0 100 (some 101) [.slot, .event, .timeout])
     [⟨1, some 100, [100], .nil⟩, ⟨2, some 103, [103], .nil⟩] = false := by decide
 
 end KeepVerif.C47
